@@ -64,6 +64,9 @@ func profileFor(prop string) profile {
 	case "C19", "C21", "C22", "C23", "C24", "C25":
 		p.kinds["node_stake"], p.kinds["node_unstake"], p.kinds["node_unjail"] = 50, 20, 20
 		p.kinds["gov_param"] = 10
+		if prop == "C25" || prop == "C19" {
+			p.relay, p.claims = 14, 14
+		}
 	case "C20", "C28":
 		p.kinds["app_stake"], p.kinds["app_unstake"] = 60, 20
 	case "C04", "C12":
@@ -103,7 +106,16 @@ func tuneForProperty(c *Config, prop string, r *core.Rand) {
 		c.ClaimExpiration = int64(r.Range(8, 30))
 		// a session needs SessionNodeCount servicers on the chain; the second chain is served by
 		// every other genesis node only
-		if half := int64(c.NNodes / 2); c.SessionNodeCount > half && r.Chance(0.8) {
+		if prop == "C33" {
+			// session sizes around the number of eligible nodes: the first chain is served by every
+			// genesis node, the second by every other one; jailing then moves the population across
+			// the boundary in both directions
+			lo := c.NNodes/2 - 1
+			if lo < 1 {
+				lo = 1
+			}
+			c.SessionNodeCount = int64(r.Range(lo, c.NNodes))
+		} else if half := int64(c.NNodes / 2); c.SessionNodeCount > half && r.Chance(0.8) {
 			c.SessionNodeCount = half
 			if c.SessionNodeCount < 1 {
 				c.SessionNodeCount = 1
@@ -115,6 +127,19 @@ func tuneForProperty(c *Config, prop string, r *core.Rand) {
 		}
 		if prop == "C26" && r.Chance(0.5) {
 			delete(c.Features, "RSCAL") // reward formula exact in integers
+		}
+	}
+	if prop == "C25" || prop == "C19" {
+		// challenge-type burns: a proof through a double-counted relay is punished with
+		// claimed relays x ReplayAttackBurnMultiplier, which for large multipliers exceeds what is
+		// left of the stake
+		c.BaseRelaysPerPOKT = int64([]int{20000, 200000}[r.Intn(2)])
+		c.ReplayBurnMult = int64([]int{3, 100_000, 1_000_000, 3_000_000}[r.Intn(4)])
+		if half := int64(c.NNodes / 2); c.SessionNodeCount > half {
+			c.SessionNodeCount = half
+			if c.SessionNodeCount < 1 {
+				c.SessionNodeCount = 1
+			}
 		}
 	}
 	if prop == "C43" && r.Chance(0.6) {
@@ -234,11 +259,17 @@ func (g *generator) genClaims() *Step {
 	r := g.r
 	st := &Step{Op: "claims"}
 	x := r.Float64()
+	if (g.s.prop == "C25" || g.s.prop == "C19") && r.Chance(0.45) {
+		st.Action = "dup-evidence" // leads to a replay-attack burn of the servicer
+		return st
+	}
 	switch {
 	case x < g.prof.forge*0.7:
 		st.Action = "forge:" + proofMutations[r.Intn(len(proofMutations)-1)]
 	case x < g.prof.forge:
 		st.Action = "dup-evidence"
+	case x < g.prof.forge+0.1 && g.s.prop == "C32":
+		st.Action = "outsider-claim"
 	case x < g.prof.forge+0.1:
 		st.Action = "claims-only"
 	case x < g.prof.forge+0.2:
@@ -309,6 +340,12 @@ func (g *generator) genInterf(phase string) Interf {
 	r := g.r
 	q := Interf{Phase: phase}
 	x := r.Float64()
+	if (g.s.prop == "C13" || g.s.prop == "C33") && r.Chance(0.25) {
+		q.Kind = "dispatch"
+		q.Key = appBase + r.Intn(g.s.cfg.NApps)
+		q.Path = g.s.cfg.Chains[r.Intn(len(g.s.cfg.Chains))]
+		return q
+	}
 	switch {
 	case x < g.prof.simulateShare:
 		q.Kind = "simulate"
